@@ -18,13 +18,20 @@ use crate::rec::*;
 pub const NAMES: [&str; 6] = ["op", "op {x}", "", "fetch user", "a", "span name with spaces and {holes}"];
 pub const MDLS: [&str; 5] = ["m", "app::a", "app::b::c", "x_y", "verif"];
 pub const KEYS: [&str; 6] = ["a", "b", "c", "k0", "k1", "user_id"];
-pub const LEVELS: [emit::Level; 4] = [emit::Level::Debug, emit::Level::Info, emit::Level::Warn, emit::Level::Error];
+
+pub const K_CUSTOM: u8 = 0;
+pub const K_DEFAULT: u8 = 1;
+pub const K_RT_OK: u8 = 2;
+pub const K_RT_ERR: u8 = 3;
+pub const RT_TPL: &str = "a-result";
 
 #[derive(Serialize, Deserialize, Debug, Clone, PartialEq)]
 pub struct CompSpec {
-    /// false: a custom `Completion` that records the `Span` it is given; true: emit's own
-    /// `completion::Default` over a recording emitter (adds lvl / err / ambient context)
-    pub default: bool,
+    /// 0: a custom `Completion` that records the `Span` it is given; 1: emit's own
+    /// `completion::Default` over a recording emitter (adds lvl / err / ambient context); 2 / 3: the
+    /// Result-aware completions the span macros pass to `complete_with` in their Ok / Err arms
+    /// (`__private_complete_span_ok` / `_err`) over an explicit runtime whose filter is the case's filter
+    pub kind: u8,
     pub lvl: Option<u8>,
     pub panic_lvl: Option<u8>,
 }
@@ -50,7 +57,7 @@ pub enum Terminal {
 
 #[derive(Serialize, Deserialize, Debug, Clone)]
 pub struct CaseA {
-    pub verdict: bool,
+    pub filter: FilterSpec,
     pub inside_frame: bool,
     pub rng_avail: bool,
     pub rng_seed: u32,
@@ -83,7 +90,7 @@ fn props_model(ps: &[(u8, i8)]) -> Vec<(String, String)> {
 pub struct Comp {
     id: u32,
     st: Rc<St>,
-    default: bool,
+    kind: u8,
     lvl: Option<emit::Level>,
     panic_lvl: Option<emit::Level>,
 }
@@ -93,7 +100,7 @@ impl Comp {
         Comp {
             id,
             st: st.clone(),
-            default: spec.default,
+            kind: spec.kind % 4,
             lvl: spec.lvl.map(|l| LEVELS[idx(l, 4)]),
             panic_lvl: spec.panic_lvl.map(|l| LEVELS[idx(l, 4)]),
         }
@@ -102,7 +109,16 @@ impl Comp {
 
 impl Completion for Comp {
     fn complete<P: Props>(&self, span: Span<P>) {
-        if self.default {
+        if self.kind == K_RT_OK {
+            let rt = build_rt(&self.st, self.id);
+            let tpl = emit::Template::literal(RT_TPL);
+            emit::__private::__private_complete_span_ok(&rt, tpl, self.lvl.as_ref()).complete(span);
+        } else if self.kind == K_RT_ERR {
+            let rt = build_rt(&self.st, self.id);
+            let tpl = emit::Template::literal(RT_TPL);
+            let lvl = self.lvl.unwrap_or(emit::Level::Error);
+            emit::__private::__private_complete_span_err(&rt, tpl, &lvl, "a-err").complete(span);
+        } else if self.kind == K_DEFAULT {
             let mut c = completion::Default::<_, _, emit::Level>::new(RecEmitter { id: self.id, st: self.st.clone() }, ctxt());
             if let Some(l) = self.lvl {
                 c = c.with_lvl(l);
@@ -141,12 +157,21 @@ struct Observed {
 const COMPLETE_WITH_ID: u32 = 10_000;
 
 pub fn check_api(c: &CaseA, cx: &mut Cx) -> Res {
-    let st = St::new(c.verdict, c.clock.clone(), c.rng_avail, c.rng_seed as u64);
+    let st = St::new(c.filter.clone(), FilterSpec::AcceptAll, c.clock.clone(), c.rng_avail, c.rng_seed as u64);
+    // "passed the filter" = the filter's verdict on the span's START event (first evaluation): no level, no
+    // extent, no err, template "{span_name} started"
+    let start_feat = Feat {
+        lvl: None,
+        has_extent: false,
+        has_err: false,
+        tpl: "{span_name} started".to_string(),
+    };
+    let verdict = c.filter.verdict(&start_feat, 0);
     let terminal_phase = c.ops.len() as u32 + 1;
 
     // ---- the model, straight from the property text -------------------------------------------
     let mut m = Model {
-        enabled: c.verdict,
+        enabled: verdict,
         started: false,
         start_phase: None,
         name: NAMES[idx(c.init_name, NAMES.len())].to_string(),
@@ -191,8 +216,9 @@ pub fn check_api(c: &CaseA, cx: &mut Cx) -> Res {
     let panic_exit = matches!(c.terminal, Terminal::PanicDrop);
 
     // ---- classification -------------------------------------------------------------------------
-    cx.class_if(!c.verdict, "A:disabled");
-    cx.class_if(!c.verdict && n_with_completion > 0, "A:disabled+with_completion");
+    cx.class_if(!verdict, "A:disabled");
+    cx.class_if(!verdict && n_with_completion > 0, "A:disabled+with_completion");
+    cx.class_if(c.filter.is_event_dependent(), "A:event-dependent-filter");
     cx.class_if(panic_exit, "A:panic-drop");
     cx.class_if(panic_exit && completes, "A:panic-drop-completing");
     cx.class_if(n_starts >= 2, "A:repeated-start");
@@ -200,13 +226,14 @@ pub fn check_api(c: &CaseA, cx: &mut Cx) -> Res {
     cx.class_if(matches!(c.terminal, Terminal::CompleteWith(_)), "A:complete_with");
     cx.class_if(matches!(c.terminal, Terminal::Complete), "A:complete");
     cx.class_if(!c.inside_frame, "A:outside-frame");
-    cx.class_if(completes && m.comp.default, "A:default-completion");
+    cx.class_if(completes && m.comp.kind % 4 == K_DEFAULT, "A:default-completion");
+    cx.class_if(completes && m.comp.kind % 4 >= K_RT_OK, "A:result-hook-completion");
     cx.class_if(completes, "A:completing");
-    cx.nontrivial((builder_ops >= 2 && n_with_completion > 0) || !c.verdict || n_starts >= 2 || panic_exit);
+    cx.nontrivial((builder_ops >= 2 && n_with_completion > 0) || !verdict || n_starts >= 2 || panic_exit);
 
     // ---- run the real thing -----------------------------------------------------------------------
     let (guard, frame): (Guard, _) = SpanGuard::new(
-        VerdictFilter(st.clone()),
+        SpecFilter { which: F_RUNTIME, st: st.clone() },
         ctxt(),
         ClockH(st.clone()),
         RngH(st.clone()),
@@ -285,6 +312,26 @@ pub fn check_api(c: &CaseA, cx: &mut Cx) -> Res {
     vassert!(cx, !panic_exit || obs.panicked, "harness/panic-not-observed", "scripted panic did not unwind");
     vassert_eq!(cx, ctxt_live_props(), 0usize, "ctxt-not-restored", "ambient context still holds properties after the case");
 
+    // the filter decides once, when the span is created, on the start event
+    let evals = st.filters[F_RUNTIME].borrow().evals.clone();
+    match evals.first() {
+        None => cx.fail("filter-not-consulted", "SpanGuard::new did not consult the filter".to_string())?,
+        Some((feat, v)) => {
+            vassert!(
+                cx,
+                *feat == start_feat && *v == verdict,
+                "start-filter-verdict-mismatch",
+                "the filter {:?} was first shown {:?} and answered {}; the start event should look like {:?} (verdict {})",
+                c.filter,
+                feat,
+                v,
+                start_feat,
+                verdict
+            );
+        }
+    }
+    let filtered_again = evals.iter().skip(1).any(|(_, v)| !*v);
+
     // a filtered-out span must stay disabled and silent, whatever was done to it
     if !m.enabled {
         let flipped = obs.enabled.iter().find(|(_, e)| *e).map(|(p, _)| *p);
@@ -328,6 +375,19 @@ pub fn check_api(c: &CaseA, cx: &mut Cx) -> Res {
         return Ok(());
     }
 
+    if recs.is_empty() && filtered_again {
+        cx.fail(
+            "completion-filtered-again",
+            format!(
+                "enabled, started span ended by {:?} produced no completion: the filter {:?} accepted the start event, was consulted {} more time(s) and rejected the completion event ({:?})",
+                c.terminal,
+                c.filter,
+                evals.len() - 1,
+                evals.last().map(|(f, _)| f)
+            ),
+        )?;
+        return Ok(());
+    }
     vassert!(
         cx,
         !recs.is_empty(),
@@ -344,6 +404,16 @@ pub fn check_api(c: &CaseA, cx: &mut Cx) -> Res {
         recs.iter().map(|r| r.recorder).collect::<Vec<_>>()
     );
     let r = &recs[0];
+    // would this filter have said something else about the completion event than about the start event?
+    if !c.filter.verdict(&r.feat(), 1) {
+        cx.class(match c.terminal {
+            Terminal::Complete => "differ:complete",
+            Terminal::CompleteWith(_) => "differ:complete_with",
+            Terminal::Drop => "differ:drop",
+            Terminal::PanicDrop => "differ:panic",
+        });
+        cx.class_if(m.comp.kind % 4 >= K_RT_OK, "differ:A-through-result-hook");
+    }
     vassert_eq!(cx, r.recorder, m.comp_id, "wrong-completion", "completion ran on recorder (0 = initial, n = with_completion at op n, 10000 = complete_with)");
     vassert_eq!(cx, r.phase, terminal_phase, "completed-early", "completion ran during op/phase");
     vassert_eq!(cx, r.mdl, m.mdl, "span-mdl-mismatch", "module of the completed span");
@@ -364,7 +434,20 @@ pub fn check_api(c: &CaseA, cx: &mut Cx) -> Res {
 
     // panic / level clauses (only emit's default completion adds them)
     vassert_eq!(cx, r.panicking, panic_exit, "harness/panicking-flag", "thread::panicking() at completion");
-    if m.comp.default {
+    let kind = m.comp.kind % 4;
+    if kind == K_RT_OK || kind == K_RT_ERR {
+        vassert!(cx, r.via_emitter, "harness/route", "result completion did not go through the emitter");
+        let lvl = m.comp.lvl.map(|l| LEVELS[idx(l, 4)]);
+        if kind == K_RT_OK {
+            vassert_eq!(cx, r.lvl, lvl, "ok-level-mismatch", "level of a span completed through the Ok completion");
+            vassert!(cx, r.prop("err").is_none(), "unexpected-err", "span completed through the Ok completion carries err: {:?}", r.props);
+        } else {
+            vassert_eq!(cx, r.lvl, Some(lvl.unwrap_or(emit::Level::Error)), "err-level-mismatch", "level of a span completed through the Err completion");
+            vassert_eq!(cx, r.prop("err"), Some("a-err"), "err-missing", "err of a span completed through the Err completion");
+        }
+        vassert_eq!(cx, r.tpl.as_str(), RT_TPL, "template-mismatch", "template of a span completed through a Result completion");
+    }
+    if kind == K_DEFAULT {
         vassert!(cx, r.via_emitter, "harness/route", "default completion did not go through the emitter");
         let lvl = |o: Option<u8>| o.map(|l| LEVELS[idx(l, 4)]);
         if panic_exit {
@@ -385,7 +468,7 @@ pub fn check_api(c: &CaseA, cx: &mut Cx) -> Res {
                 vassert!(cx, t.is_some() && s.is_some(), "ids-not-generated", "rng available but span ctxt has trace={:?} span={:?}", t, s);
             }
             vassert_eq!(cx, (r.cur_trace, r.cur_span), (t, s), "ids-missing-at-completion", "ids in the ambient context at completion vs ids the span was created with");
-            if m.comp.default && t.is_some() {
+            if kind != K_CUSTOM && t.is_some() {
                 vassert!(
                     cx,
                     r.prop("trace_id").is_some() && r.prop("span_id").is_some(),
@@ -395,7 +478,7 @@ pub fn check_api(c: &CaseA, cx: &mut Cx) -> Res {
                 );
             }
         } else {
-            cx.fail("harness/filter-not-consulted", "SpanGuard::new did not consult the filter".to_string())?;
+            cx.fail("filter-not-consulted", "SpanGuard::new did not consult the filter".to_string())?;
         }
     } else {
         cx.dont_care();
